@@ -67,7 +67,7 @@ def _op(ty):
         invariant
             retval.shdr().version.0 == 0x0101, retval.shdr().operation_or_status == {code}, retval.shdr().request_id == 1,
             payload_is_empty(retval.spayload()),
-            it.snapshot@.remaining() == a0,
+            it_rem(it.snapshot@) == a0,
             abs_groups(retval.sattrs()) == with_job_attrs(g0, a0, it.index@ as nat),
 '''}}
         op['proofs'] = [{'before': 'for attr in self.attributes', 'optional': True,
@@ -79,7 +79,7 @@ OPS = [
     {'op': 'prelude', 'text': '#[allow(unused_imports)] use vstd::prelude::*;\n'
                               '#[allow(unused_imports)] use crate::verif_ext::*;\n'
                               '#[allow(unused_imports)] use crate::verif_spec::*;\n'
-                              '#[allow(unused_imports)] use vstd::std_specs::iter::IteratorSpec;\n'
+                              ''
                               'verus! { broadcast use {crate::verif_ext::group_ipp_seq, crate::verif_ext::group_ipp_text}; }'},
     {'op': 'wrap', 'items': ['fn with_user_name', 'trait IppOperation'] + [f'struct {t}' for t in _STRUCTS]
      + [f'impl {t}' for t in _STRUCTS] + [f'impl IppOperation for {t}' for t in _STRUCTS],
